@@ -1,7 +1,7 @@
 (** Property C09 — the query parser is total and accepts exactly the documented grammar.
     Statements only; proofs are [exact] of ParserProofs.v.  [lex] is the byte-level lexer,
     [G_query] the EBNF of the file header over tokens. *)
-From updog Require Import Prelude QParser ParserProofs.
+From updog Require Import Prelude QParser ParserProofs LexSpec.
 
 (** Parsing terminates on every byte string, without a run-time panic. *)
 Theorem C09_total s : parse_query s ≠ Panic ∧ parse_query s ≠ Hang.
@@ -22,6 +22,27 @@ Proof. exact (parse_iff_strong ts q). Qed.
     sentence of the grammar — no unconsumed trailing text, no unterminated string. *)
 Theorem C09_byte_level s q : parse_query s = Ok q ↔ ∃ ts, lex s = ts ++ [TEOF] ∧ G_query ts q.
 Proof. exact (parse_query_ok_iff s q). Qed.
+
+(** Byte level, declaratively: [Tokens s ts] says that the byte string [s] is the lexemes of
+    [ts] (single-character tokens, identifiers, quoted values with doubled quotes, dollar
+    followed by digits) separated by optional white space, with maximal munch — no reference to
+    the lexer function.  A query is returned iff the whole input is such a sentence of the
+    grammar; otherwise an error. *)
+Theorem C09_byte_level_declarative s q :
+  parse_query s = Ok q ↔ ∃ ts, Tokens s ts ∧ G_query ts q.
+Proof. exact (parse_query_spec s q). Qed.
+
+Theorem C09_reject_iff_not_a_sentence s :
+  parse_query s = Err ↔ ¬ ∃ ts q, Tokens s ts ∧ G_query ts q.
+Proof. exact (parse_query_reject s). Qed.
+
+(** The lexer meets the lexical specification exactly, and tokenisation is unique. *)
+Theorem C09_lexer_meets_spec s ts : lex s = ts ++ [TEOF] ↔ Tokens s ts.
+Proof. exact (lex_spec s ts). Qed.
+Theorem C09_tokenisation_unique s ts1 ts2 : Tokens s ts1 → Tokens s ts2 → ts1 = ts2.
+Proof. exact (Tokens_functional s ts1 ts2). Qed.
+Theorem C09_lexical_errors s : (∃ ts, lex s = ts ++ [TError]) ↔ LexError s.
+Proof. exact (lex_error_spec s). Qed.
 
 Theorem C09_lexer_error_rejects s ts :
   lex s = ts ++ [TError] → Forall plain_tok ts → parse_query s = Err.
@@ -45,4 +66,6 @@ Proof. exact (G_chain_operands_simple op ts es). Qed.
 Print Assumptions C09_total.
 Print Assumptions C09_token_level.
 Print Assumptions C09_byte_level.
+Print Assumptions C09_byte_level_declarative.
+Print Assumptions C09_reject_iff_not_a_sentence.
 Print Assumptions C09_tree_unique.
